@@ -188,6 +188,27 @@ def gen(rng, idx, tier):
             if q1 > 0.6 or rng.random() < 0.5:
                 ls += [(t, "dflt") for t in S.ot_script_tags(s)]
     features, rules = S.gsub_alternates(rng, desc, languagesystems=ls, rules=rules)
+    stale_markclass = None
+    if stratum == "default" and rng.random() < 0.08:
+        # the user's feature text still holds an old copy of a generated mark class
+        # (markClass G <anchor> @MC_x;) whose anchor no longer is G's '_x' anchor: the source
+        # anchors decide; G is the LAST mark of that class in glyph order, or any of them
+        mk_ = [(g, a) for g in glyphs for a in g["anchors"]
+               if a["name"].startswith("_") and not a["name"][1:].isdigit()]
+        if mk_:
+            which = rng.choice(["last", "last", "any"])
+            g_, a_ = rng.choice(mk_)
+            if which == "last":
+                g_, a_ = [(g, a) for g, a in mk_ if a["name"] == a_["name"]][-1]
+            key_ = a_["name"][1:]
+            stmt = "markClass %s <anchor %d %d> @MC_%s;\n" % (
+                g_["name"], int(a_["x"]) + 20, int(a_["y"]) + 60, key_)
+            k_ = features.rfind("languagesystem")
+            k_ = features.find("\n", k_) + 1 if k_ >= 0 else 0
+            features = features[:k_] + stmt + features[k_:]
+            stale_markclass = {"glyph": g_["name"], "class": "MC_" + key_, "which": which}
+            if which == "any":
+                stratum = "stale_user_markclass_not_last"
     lib = {}
     gdef_mode = rng.choice(["none", "none", "categories", "user_gdef"])
     if stratum == "unpaired_mark_anchor":
@@ -217,6 +238,7 @@ def gen(rng, idx, tier):
             features += "\ntable GDEF {\n    GlyphClassDef %s, %s, %s, ;\n} GDEF;\n" % (
                 cl("base"), cl("ligature"), cl("mark"))
     return {"stratum": stratum, "gdef_mode": gdef_mode, "based_mark_anchor": based_mark_anchor,
+            "stale_markclass": stale_markclass,
             "ufo": {"glyphs": glyphs, "features": features, "lib": lib,
                     "info": {"unitsPerEm": 1000, "familyName": "T", "styleName": "R"}},
             "rules": rules, "lib": rng.choice(["defcon", "ufoLib2"]),
@@ -335,6 +357,8 @@ def run(case):
         bump("category_fonts")
     if case.get("based_mark_anchor"):
         bump("fonts_with_base_classed_glyph_carrying_mark_anchor")
+    if case.get("stale_markclass"):
+        bump("fonts_with_stale_user_markclass_" + case["stale_markclass"]["which"])
     if any(float(a["x"]) != int(a["x"]) or float(a["y"]) != int(a["y"])
            for g in spec["glyphs"] for a in g["anchors"]):
         bump("fractional_anchor_fonts")
